@@ -31,6 +31,7 @@ func c17(c *Ctx) {
 	c17NoListAliasing(c)
 	decoderErrorSticky(c, "decoder-error-sticky")
 	c17EncoderWholeValue(c)
+	c17RequestBodyWhole(c)
 }
 
 func c17Decoder(c *Ctx) {
